@@ -1,6 +1,1 @@
-// Temporary stubs for actors implemented later.
-#include "world.hpp"
-namespace djsim
-{
-bool World::exec_foreign_op(const Step&) { return false; }
-}  // namespace djsim
+// (all actors implemented)
